@@ -38,9 +38,6 @@ func tblCurrents() []*m07.DescSpec {
 		for _, w := range tf {
 			for _, e := range tf {
 				for _, c := range tf {
-					if v != "#1" && !(w == "!f" && c == "!f") {
-						continue // NaN and -0 only where SameValue decides (8.12.9 step 10.a.ii)
-					}
 					out = append(out, &m07.DescSpec{Fields: []m07.Field{{F: "value", V: v}, {F: "writable", V: w}, {F: "enumerable", V: e}, {F: "configurable", V: c}}})
 				}
 			}
@@ -74,6 +71,26 @@ func tblDesc(v, w, g, st, e, c string) m07.DescSpec {
 	return d
 }
 
+// tblShapes lists the (value, writable, get, set) parts of the descriptors: generic, every data-only
+// and accessor-only combination, and one representative of each contradictory mix (8.10.5 step 9).
+func tblShapes() [][4]string {
+	var out [][4]string
+	for _, v := range tblValues {
+		for _, w := range tblBools {
+			out = append(out, [4]string{v, w, "", ""})
+		}
+	}
+	for _, g := range tblGets {
+		for _, st := range tblSets {
+			if g != "" || st != "" {
+				out = append(out, [4]string{"", "", g, st})
+			}
+		}
+	}
+	out = append(out, [4]string{"#1", "", "F0", ""}, [4]string{"#1", "", "", "u"}, [4]string{"", "!t", "u", ""}, [4]string{"", "!f", "", "F5"})
+	return out
+}
+
 func (c tableCase) history() Case {
 	var h Case
 	oi := m07.ObjInit{Kind: "create", Proto: -2}
@@ -100,16 +117,15 @@ func checkTable(c tableCase) harness.Outcome {
 
 var tableFacet = harness.Register(&harness.Facet[tableCase]{
 	Name: "dop-table",
-	Rule: "finite product: current state of property a (absent; data with value 1 (or NaN, -0) x writable x enumerable x configurable; accessor with get in {undefined,F0} x set in {undefined,F5} x enumerable x configurable) x object extensible or not x descriptor (value in {absent,1,NaN,-0,+0} x writable/enumerable/configurable in {absent,true,false} x get in {absent,undefined,F0,F2} x set in {absent,undefined,F5,F2}), i.e. 29 states x 2 x 2160 descriptors = 125280 cases (values NaN and -0 only for the non-writable non-configurable states, where SameValue decides); each runs create, [preventExtensions], Object.defineProperty, then an assignment and a delete as behavioural probes, with all observations compared after every step. thorough = the complete product split over the shards (exhaustive); quick = a uniform random sample. non-trivial = the property already exists or the object is not extensible; distinct by (state, descriptor)",
-	Quick: 1200, Thorough: 0,
+	Rule: "finite product: current state of property a (absent; data with value in {1,NaN,-0} x writable x enumerable x configurable; accessor with get in {undefined,F0} x set in {undefined,F5} x enumerable x configurable: 41 states) x object extensible or not x descriptor = shape x enumerable x configurable in {absent,true,false}, shape = generic | value in {absent,1,NaN,-0,+0} x writable in {absent,true,false} | get in {absent,undefined,F0,F2} x set in {absent,undefined,F5,F2} | 4 contradictory data+accessor mixes (34 shapes, 306 descriptors), i.e. 41 x 2 x 306 = 25092 cases; each runs create, [preventExtensions], Object.defineProperty, then an assignment and a delete as behavioural probes, with all observations compared after every step. thorough = the complete product split over the shards (exhaustive); quick = a uniform random sample. non-trivial = the property already exists or the object is not extensible; distinct by (state, descriptor)",
+	Quick: 2000, Thorough: 0,
 	Gen: func(t *rapid.T) tableCase {
 		curs := tblCurrents()
+		sh := rapid.SampledFrom(tblShapes()).Draw(t, "shape")
 		return tableCase{
-			Cur: curs[rapid.IntRange(0, len(curs)-1).Draw(t, "cur")],
-			Ext: rapid.Bool().Draw(t, "ext"),
-			Desc: tblDesc(rapid.SampledFrom(tblValues).Draw(t, "v"), rapid.SampledFrom(tblBools).Draw(t, "w"),
-				rapid.SampledFrom(tblGets).Draw(t, "g"), rapid.SampledFrom(tblSets).Draw(t, "s"),
-				rapid.SampledFrom(tblBools).Draw(t, "e"), rapid.SampledFrom(tblBools).Draw(t, "c")),
+			Cur:  curs[rapid.IntRange(0, len(curs)-1).Draw(t, "cur")],
+			Ext:  rapid.Bool().Draw(t, "ext"),
+			Desc: tblDesc(sh[0], sh[1], sh[2], sh[3], rapid.SampledFrom(tblBools).Draw(t, "e"), rapid.SampledFrom(tblBools).Draw(t, "c")),
 		}
 	},
 	Check: checkTable,
@@ -124,19 +140,13 @@ func TestDefineOwnPropertyTable(t *testing.T) {
 	i := 0
 	for _, cur := range tblCurrents() {
 		for _, ext := range []bool{true, false} {
-			for _, v := range tblValues {
-				for _, w := range tblBools {
-					for _, g := range tblGets {
-						for _, st := range tblSets {
-							for _, e := range tblBools {
-								for _, c := range tblBools {
-									if i%harness.NShards() == harness.Shard() {
-										cases = append(cases, tableCase{Cur: cur, Ext: ext, Desc: tblDesc(v, w, g, st, e, c)})
-									}
-									i++
-								}
-							}
+			for _, sh := range tblShapes() {
+				for _, e := range tblBools {
+					for _, c := range tblBools {
+						if i%harness.NShards() == harness.Shard() {
+							cases = append(cases, tableCase{Cur: cur, Ext: ext, Desc: tblDesc(sh[0], sh[1], sh[2], sh[3], e, c)})
 						}
+						i++
 					}
 				}
 			}
